@@ -143,6 +143,18 @@ def check_constants_pass(rep, facts, pipe, und):
         evs = [e for e in p.events if e[0] == 'value' and e[1][0] == 'mcall' and e[1][2] == 'eval']
         sets = [e for e in p.events if e[0] == 'setitem' and e[1] == tbl]
         fields = stored_fields(facts, 'Constant')
+        if len(sets) == 1 and not evs:
+            # the evaluation sits in a helper: follow the stored value through effect-free module-level functions
+            from ..layout import Sizes
+            stored = sets[0][3]
+            while stored[0] == 'res':
+                stored = stored[3]
+            resolved = Sizes(facts).resolve(stored, p)
+            if resolved[0] == 'mcall' and resolved[2] == 'eval':
+                evs = [('value', resolved, sets[0][4])]
+                sets = [sets[0][:3] + (resolved,) + sets[0][4:]]
+            else:
+                raise AnalysisError('resolve_constants: the value stored for a constant ({}) is not followed back to an evaluation of its expression'.format(show(stored)[:80]))
         ok = len(evs) == 1 and len(sets) == 1 and sets[0][2][0] == 'attr' and sets[0][2][1] == item and sets[0][3] == evs[0][1] \
             and evs[0][1][1][0] == 'attr' and evs[0][1][1][1] == item and evs[0][1][1][2] in fields and sets[0][2][2] in fields \
             and sets[0][2][2] != evs[0][1][1][2]
